@@ -143,7 +143,17 @@ static Outcome runCase(const KV& c)
         }
     }
     else {
-        // (ii) the exact solution of the (extrapolated) system is a fixed point, up to a condition-aware bound
+        // (ii) the exact solution of the (extrapolated) system is a fixed point, up to a condition-aware bound.
+        // A cycle WITHOUT any smoothing on three or more levels is not a contraction (the coarse-grid correction alone
+        // does not damp the oscillatory components; the recursive W/F visits apply it 2^(L-2) times), so in floating
+        // point the rounding-level residual of the "exact" solution is amplified without bound (seed sweep: moved by
+        // O(|u|) on 7 levels, W-cycle). The statement is about exact arithmetic; such cycles are compared with the
+        // reference scheme in mode 0 (bitwise), which loses nothing, and are not judged here (DESIGN.md 10.1).
+        if (nu1 + nu2 == 0 && nl >= 3) {
+            o.inconclusive = true;
+            o.cls("fixed_point_not_judged_no_smoothing_multilevel");
+            return o;
+        }
         double kinv = 0, knorm = 0;
         const int ncl = L[nl - 1].grid().numberOfNodes();
         for (int k = 0; k < 3; k++) {
